@@ -1353,6 +1353,13 @@ class Interp:
                     h.write_scal(fa + "?none", "bool", o.ref, z3.BoolVal(False))
                 return
             raise Unsupported("non-array stored in array field %s" % attr)
+        if kind == "arr2":
+            if is_arr2(val):
+                rd = self.arr2_reader(val)
+                nr, nc = self.arr2_dims(val)
+                h.set_a2(fa, o.ref, to_z3num(nr), to_z3num(nc), lambda i, j: to_real(rd(i, j)))
+                return
+            raise Unsupported("non-2-D value stored in field %s" % attr)
         if kind in ("real?", "int?", "str?"):
             if val is None:
                 h.write_scal(fa + "?none", "bool", o.ref, z3.BoolVal(True))
@@ -1839,9 +1846,9 @@ class Interp:
             return b
         if not b_ok:
             return a
-        if (is_z3(a) or isinstance(a, (int, float))) and (is_z3(b) or isinstance(b, (int, float))):
+        if self.mode != "FPSTD" and (is_z3(a) or isinstance(a, (int, float))) and (is_z3(b) or isinstance(b, (int, float))):
             return ite(c, a, b)
-        if self.branch(c):
+        if self.branch(c):  # (FPSTD obligations are decided per path: integer rounding terms do not mix well with if-then-else)
             return a
         return b
 
@@ -2050,8 +2057,10 @@ class Interp:
             if not c:
                 raise _Raise("AssertionError", node)
             return
-        if isinstance(c, ForallV):
-            raise Unsupported("assert on a quantified formula")
+        if isinstance(c, (ForallV, ExistsV)) or (isinstance(c, tuple) and c and c[0] == "and"):
+            if not self.branch_quantified(c):
+                raise _Raise("AssertionError", node)
+            return
         if not self.branch(c):
             raise _Raise("AssertionError", node)
 
